@@ -50,6 +50,11 @@ struct Model {
 		}
 		for (auto &t : w.trains) { TrainS s; for (auto &p : t.periphs) s.periph[p.id] = 0; tr[t.id] = s; order_tr.push_back(t.id); }
 	}
+	// bidib_send_sys_reset() while the library runs: every tracked value returns to its initial value (configuration and counters stay)
+	void reset_state() {
+		cfg::World w2 = w; uint64_t ut = unknown_targets, lv = list_valued;
+		*this = Model(); init(w2); unknown_targets = ut; list_valued = lv;
+	}
 	void set_connected_from_tree(const bus::Bus &bus) {
 		for (auto &b : w.boards) {
 			int idx = bus.find_uid(b.uid);
